@@ -1,5 +1,5 @@
 (* C13 (path-mutation half) — proofs about Model/C13Fs.v and Model/PathMut.v. *)
-From Apko Require Import Base.Prelude Model.C13Fs Model.PathMut Generated.C13Consts Spec.AccountsSpec Spec.PathMutSpec.
+From Apko Require Import Base.Prelude Model.C13Fs Model.Accounts Model.PathMut Generated.C13Consts Spec.AccountsSpec Spec.PathMutSpec Proofs.AccountsProofs.
 Open Scope string_scope. Open Scope list_scope.
 
 (* ---- heap updates ------------------------------------------------------------ *)
@@ -35,13 +35,17 @@ Lemma getnode_same_shape : forall d f g comps,
   fs_same_shape f g -> getnode d f comps = getnode d g comps.
 Proof.
   induction d as [|d IHd]; intros f g comps Hs; simpl.
-  - generalize root_ino (@nil string). induction comps as [|p ps IH]; intros cur trav; [reflexivity|].
+  - match goal with |- ?F root_ino [] comps = ?G root_ino [] comps =>
+      cut (forall ps cur trav, F cur trav ps = G cur trav ps); [intro HH; apply HH|] end.
+    induction ps as [|p ps IH]; intros cur trav; [reflexivity|]. simpl.
     pose proof (Hs cur) as Hc. destruct (get f cur) as [n|], (get g cur) as [n'|]; try contradiction; [|reflexivity].
     destruct Hc as (_ & _ & Hch). rewrite <- Hch.
     destruct (lookup p (nchildren n)) as [c|]; [|reflexivity].
     pose proof (Hs c) as Hcc. destruct (get f c) as [cn|], (get g c) as [cn'|]; try contradiction; [|reflexivity].
     destruct Hcc as (Hk & _ & _). rewrite <- Hk. destruct (nkind cn); auto.
-  - generalize root_ino (@nil string). induction comps as [|p ps IH]; intros cur trav; [reflexivity|].
+  - match goal with |- ?F root_ino [] comps = ?G root_ino [] comps =>
+      cut (forall ps cur trav, F cur trav ps = G cur trav ps); [intro HH; apply HH|] end.
+    induction ps as [|p ps IH]; intros cur trav; [reflexivity|]. simpl.
     pose proof (Hs cur) as Hc. destruct (get f cur) as [n|], (get g cur) as [n'|]; try contradiction; [|reflexivity].
     destruct Hc as (_ & _ & Hch). rewrite <- Hch.
     destruct (lookup p (nchildren n)) as [c|]; [|reflexivity].
@@ -92,16 +96,202 @@ Lemma mutate_one_post : forall maxl f m f',
             nperm n = m_perm m /\ nuid n = m_uid m /\ ngid n = m_gid m.
 Proof.
   intros maxl f m f' H. unfold mutate_one in H.
-  destruct (assoc (m_type m) path_mutators) as [fn|]; [|discriminate].
+  destruct (assoc (m_type m) path_mutators) as [fn|] eqn:Hfn; [|discriminate].
   destruct (mutator_named maxl fn) as [pm|] eqn:Hpm; [|discriminate].
   apply fbind_ok in H. destruct H as (f1 & Hf1 & H).
   destruct (String.eqb (m_type m) "permissions") eqn:Ht.
   - inversion H; subst f1. clear H.
-    (* the table sends "permissions" to mutatePermissions *)
-    apply String.eqb_eq in Ht.
-    unfold mutate_one in *. clear - Ht Hpm Hf1.
-    assert (Hfn : assoc (m_type m) path_mutators = Some "mutatePermissions") by (rewrite Ht; reflexivity).
-    revert Hpm Hf1. intros Hpm Hf1.
-    (* fn is determined by the table *)
-    admit_free_marker.
-Abort.
+    apply String.eqb_eq in Ht. rewrite Ht in Hfn.
+    vm_compute in Hfn. inversion Hfn; subst fn. clear Hfn.
+    unfold mutator_named in Hpm. simpl in Hpm. inversion Hpm; subst pm. clear Hpm.
+    unfold mutate_permissions in Hf1. eapply perms_direct_post; eauto.
+  - unfold mutate_permissions in H. eapply perms_direct_post; eauto.
+Qed.
+
+Lemma mutate_paths_app : forall maxl ms f m f',
+  mutate_paths maxl f (ms ++ [m]) = FOk f' ->
+  exists f1, mutate_paths maxl f ms = FOk f1 /\ mutate_one maxl f1 m = FOk f'.
+Proof.
+  intros maxl. induction ms as [|a t IH]; intros f m f' H; simpl in *.
+  - apply fbind_ok in H. destruct H as (f1 & H1 & H2). inversion H2; subst. eauto.
+  - apply fbind_ok in H. destruct H as (f1 & H1 & H2). rewrite H1. simpl. eauto.
+Qed.
+
+Lemma last_mutation_post : forall maxl f ms m f',
+  mutate_paths maxl f (ms ++ [m]) = FOk f' ->
+  exists n, stat maxl f' (path_of (m_path m)) = FOk n /\
+            nperm n = m_perm m /\ nuid n = m_uid m /\ ngid n = m_gid m.
+Proof.
+  intros maxl f ms m f' H. apply mutate_paths_app in H. destruct H as (f1 & _ & H).
+  eapply mutate_one_post; eauto.
+Qed.
+
+(* unsupported types are rejected *)
+Lemma unknown_type_rejected : forall maxl f m,
+  assoc (m_type m) path_mutators = None -> mutate_one maxl f m = FErr.
+Proof. intros maxl f m H. unfold mutate_one. rewrite H. reflexivity. Qed.
+
+(* ---- the layer: which modes survive tar.FileInfoHeader ----------------------- *)
+Lemma layer_mode_le : forall p, (layer_mode p <= 511)%N.
+Proof.
+  intro p. unfold layer_mode.
+  destruct (N.eq_dec (N.land p 511) 0) as [E|E]; [rewrite E; discriminate|].
+  apply N.lt_succ_r. change (N.succ 511) with (2 ^ 9)%N.
+  apply N.log2_lt_pow2; [destruct (N.land p 511); [congruence|reflexivity]|].
+  eapply N.le_lt_trans; [apply N.log2_land|].
+  apply N.min_lt_iff. right. reflexivity.
+Qed.
+Lemma layer_mode_exact_iff : forall p, layer_mode p = p <-> (p <= 511)%N.
+Proof.
+  intro p. split.
+  - intro H. rewrite <- H. apply layer_mode_le.
+  - intro H. unfold layer_mode. change 511%N with (N.ones 9). rewrite N.land_ones.
+    apply N.mod_small. change (2 ^ 9)%N with 512%N. lia.
+Qed.
+
+(* C13-F1, on the model: a sticky directory loses the bit in the layer *)
+Lemma special_bits_refuted :
+  exists m f', m_perm m = 1023%N (* 0o1777 *) /\
+    mutate_paths 40 (empty_fs 493) [m] = FOk f' /\
+    (exists n, stat 40 f' (path_of (m_path m)) = FOk n /\ nperm n = m_perm m) /\
+    exists l, In l (layer_of f') /\ d_path l = "tmp" /\ d_perm l = 511%N /\ d_perm l <> m_perm m.
+Proof.
+  exists (mkMut "directory" "/tmp" "" 1023 0 0 false).
+  eexists. split; [reflexivity|]. split; [vm_compute; reflexivity|].
+  split.
+  - eexists. split; [vm_compute; reflexivity|]. reflexivity.
+  - eexists. split; [left; reflexivity|]. vm_compute. repeat split; discriminate.
+Qed.
+
+(* C13-F2, on the model: the owner declared on a symlink mutation lands on the
+   link's target; the link itself stays 0:0 *)
+Lemma symlink_owner_refuted :
+  exists f m f', m_type m = "symlink" /\ mutate_paths 40 f [m] = FOk f' /\
+    (exists l, direct 40 f' (path_of (m_path m)) = FOk l /\ nkind l = KSym /\ ntarget l = m_source m /\
+               nuid l = 0%N /\ nuid l <> m_uid m) /\
+    (exists t, stat 40 f' (path_of (m_source m)) = FOk t /\ nuid t = m_uid m /\ ngid t = m_gid m /\ nperm t = m_perm m) /\
+    realised_tags m (mkStep (match direct 40 f' (path_of (m_path m)) with FOk n => Some (dentry_of "" n) | _ => None end)
+                            None 0 None []) = ["viol:symlink-owner-not-applied"].
+Proof.
+  exists [mkNode KDir 493 0 0 "" "" [("plain", 1%nat)]; mkNode KDir 488 1 2 "" "" []].
+  exists (mkMut "symlink" "/lnk" "plain" 448 9 9 false). eexists.
+  split; [reflexivity|]. split; [vm_compute; reflexivity|].
+  split; [eexists; split; [vm_compute; reflexivity|]; repeat split; discriminate|].
+  split; [eexists; split; [vm_compute; reflexivity|]; repeat split|].
+  vm_compute. reflexivity.
+Qed.
+
+(* a dangling source makes the symlink mutation fail (after creating the link) *)
+Lemma symlink_dangling_fails :
+  mutate_paths 40 (empty_fs 493) [mkMut "symlink" "/dl" "nowhere" 511 0 0 false] = FNotExist.
+Proof. vm_compute. reflexivity. Qed.
+
+(* the layer validator decides its statement *)
+Lemma tag_if_nil : forall b t, tag_if b t = [] <-> b = false.
+Proof. intros [] t; simpl; split; congruence. Qed.
+Lemma app_nil_iff : forall {A} (a b : list A), a ++ b = [] <-> a = [] /\ b = [].
+Proof. intros A [|x a] b; simpl; split; try tauto; try (intros [H _]; discriminate); discriminate. Qed.
+
+Lemma layer_tags_iff : forall m l, layer_tags m l = [] <-> LayerRealised m l.
+Proof.
+  intros m l. unfold layer_tags, LayerRealised.
+  rewrite app_nil_iff, !tag_if_nil, !negb_false_iff, andb_true_iff, !N.eqb_eq. tauto.
+Qed.
+
+(* the per-mutation validator is sound and complete for the readable statement *)
+Lemma has_attrs_b_iff : forall m s, has_attrs_b m s = true <-> has_attrs m s.
+Proof. intros. unfold has_attrs_b, has_attrs. rewrite !andb_true_iff, !N.eqb_eq. tauto. Qed.
+Lemma d_has_attrs_b_iff : forall m d, d_has_attrs_b m d = true <-> d_has_attrs m d.
+Proof. intros. unfold d_has_attrs_b, d_has_attrs. rewrite !andb_true_iff, !N.eqb_eq. tauto. Qed.
+Lemma kind_eqb_iff' : forall a b, kind_eqb a b = true <-> a = b.
+Proof. intros [] []; simpl; split; congruence. Qed.
+
+Lemma realised_tags_permissions : forall m o, m_type m = "permissions" ->
+  (realised_tags m o = [] <-> Realised m o).
+Proof.
+  intros m o Ht. unfold realised_tags, Realised. rewrite Ht. cbn [String.eqb Ascii.eqb Bool.eqb].
+  simpl. rewrite tag_if_nil, negb_false_iff. destruct (so_stat o) as [s|].
+  - rewrite has_attrs_b_iff. split; [intro H; exists s; auto | intros (s' & E & H); inversion E; subst; auto].
+  - split; [discriminate | intros (s' & E & _); discriminate].
+Qed.
+Lemma realised_tags_empty_file : forall m o, m_type m = "empty-file" ->
+  (realised_tags m o = [] <-> Realised m o).
+Proof.
+  intros m o Ht. unfold realised_tags, Realised. rewrite Ht. simpl.
+  rewrite tag_if_nil, negb_false_iff. destruct (so_stat o) as [s|].
+  - rewrite !andb_true_iff, kind_eqb_iff', has_attrs_b_iff, N.eqb_eq. split.
+    + intros [[H1 H2] H3]. exists s; auto.
+    + intros (s' & E & H1 & H2 & H3). inversion E; subst; auto.
+  - split; [discriminate | intros (s' & E & _); discriminate].
+Qed.
+Lemma realised_tags_directory : forall m o, m_type m = "directory" ->
+  (realised_tags m o = [] <-> Realised m o).
+Proof.
+  intros m o Ht. unfold realised_tags, Realised. rewrite Ht. simpl.
+  rewrite app_nil_iff, !tag_if_nil, negb_false_iff.
+  assert (H1 : match so_stat o with Some s => kind_eqb (si_kind s) KDir && has_attrs_b m s | None => false end = true
+               <-> exists s, so_stat o = Some s /\ si_kind s = KDir /\ has_attrs m s).
+  { destruct (so_stat o) as [s|].
+    - rewrite andb_true_iff, kind_eqb_iff', has_attrs_b_iff. split.
+      + intros [A B]. exists s; auto.
+      + intros (s' & E & A & B). inversion E; subst; auto.
+    - split; [discriminate | intros (s' & E & _); discriminate]. }
+  rewrite H1. clear H1.
+  assert (H2 : m_recursive m && negb (forallb (fun d => kind_eqb (d_kind d) KSym || d_has_attrs_b m d) (so_desc o)) = false
+               <-> (m_recursive m = true -> forall d, In d (so_desc o) -> d_kind d <> KSym -> d_has_attrs m d)).
+  { destruct (m_recursive m); simpl.
+    - rewrite negb_false_iff, forallb_forall. split.
+      + intros H _ d Hd Hk. specialize (H d Hd). apply orb_true_iff in H. destruct H as [H|H].
+        * apply kind_eqb_iff' in H. contradiction.
+        * apply d_has_attrs_b_iff, H.
+      + intros H d Hd. apply orb_true_iff. destruct (kind_eqb (d_kind d) KSym) eqn:E; [left; reflexivity|right].
+        apply d_has_attrs_b_iff, H; auto. intro K. apply kind_eqb_iff' in K. congruence.
+    - split; [intros _ H; discriminate | reflexivity]. }
+  rewrite H2. tauto.
+Qed.
+
+Lemma realised_tags_symlink : forall m o, m_type m = "symlink" ->
+  (realised_tags m o = [] <-> Realised m o).
+Proof.
+  intros m o Ht. unfold realised_tags, Realised. rewrite Ht. simpl.
+  destruct (so_direct o) as [d|].
+  - rewrite app_nil_iff, !tag_if_nil, !negb_false_iff, !andb_true_iff, kind_eqb_iff', String.eqb_eq, !N.eqb_eq.
+    split.
+    + intros [[A B] [C D]]. exists d. auto.
+    + intros (d' & E & A & B & C & D). inversion E; subst. auto.
+  - split; [discriminate | intros (d' & E & _); discriminate].
+Qed.
+Lemma realised_tags_hardlink : forall m o, m_type m = "hardlink" ->
+  (realised_tags m o = [] <-> Realised m o).
+Proof.
+  intros m o Ht. unfold realised_tags, Realised. rewrite Ht. simpl.
+  destruct (so_direct o) as [d|].
+  - rewrite app_nil_iff, !tag_if_nil, !negb_false_iff, !andb_true_iff, negb_true_iff, d_has_attrs_b_iff.
+    assert (HK : kind_eqb (d_kind d) KSym = false <-> d_kind d <> KSym).
+    { destruct (kind_eqb (d_kind d) KSym) eqn:E.
+      - apply kind_eqb_iff' in E. split; [discriminate | congruence].
+      - split; [intros _ K; apply kind_eqb_iff' in K; congruence | reflexivity]. }
+    rewrite HK.
+    assert (HS : option_eqb sinfo_eqb (so_src o) (Some (mkSinfo (d_kind d) (d_perm d) (d_uid d) (d_gid d))) = true
+                 <-> so_src o = Some (mkSinfo (d_kind d) (d_perm d) (d_uid d) (d_gid d))).
+    { destruct (so_src o) as [s|]; simpl.
+      - rewrite sinfo_eqb_iff. split; [intros ->; reflexivity | intro E; inversion E; reflexivity].
+      - split; discriminate. }
+    rewrite HS. split.
+    + intros [[A B] C]. exists d. auto.
+    + intros (d' & E & A & B & C). inversion E; subst. auto.
+  - split; [discriminate | intros (d' & E & _); discriminate].
+Qed.
+
+Lemma realised_tags_iff : forall m o,
+  In (m_type m) ["directory"; "empty-file"; "hardlink"; "symlink"; "permissions"] ->
+  (realised_tags m o = [] <-> Realised m o).
+Proof.
+  intros m o H. simpl in H.
+  destruct H as [H|[H|[H|[H|[H|[]]]]]]; symmetry in H.
+  - apply realised_tags_directory; auto.
+  - apply realised_tags_empty_file; auto.
+  - apply realised_tags_hardlink; auto.
+  - apply realised_tags_symlink; auto.
+  - apply realised_tags_permissions; auto.
+Qed.
